@@ -3,7 +3,7 @@
 usage: tools/seed_table.py <log> [<log> ...]   (logs in chronological order; later results override earlier ones)"""
 import json, os, re, sys
 V = os.path.dirname(os.path.dirname(os.path.abspath(__file__)))
-FIRST_CAUGHT = {'C08a', 'C08b', 'C02b', 'C13a', 'C13b', 'C17a', 'C17b', 'C18a', 'C01d', 'C09d', 'C13d'}
+FIRST_CAUGHT = {'C08a', 'C08b', 'C02b', 'C13a', 'C13b', 'C17a', 'C17b', 'C18a', 'C01d', 'C09d', 'C13d', 'C12d'}
 NOT_RUN_FIRST = {'C14c', 'C14d'}     # the strengthening was written from the seed's description before the older check was run on it
 res = {}
 for path in sys.argv[1:]:
